@@ -142,7 +142,8 @@ class _Case:
                 self.receivers[f"Rx-{i+1}"] = cls((x, y, z, az, el))
                 for si in range(len(kinds)):
                     self.rec_abs[si].append((x, y, z, az, el))
-        self.freqs = [0.5, 2.0]
+        # (a Survey keeps the user's order of the frequencies)
+        self.freqs = [2.0, 0.5] if job.get("freq_desc") else [0.5, 2.0]
         # observed data: 1-D responses of another layering + finiteness mask
         self.mask = None
         om = job["obs"]
@@ -503,6 +504,7 @@ def _jobs(rng, n):
         jobs[-1]["src_fmt"] = [r2.choice(["flat", "point", "array"])
                                for _ in range(NS)]
         jobs[-1]["rec_rel"] = [r2.random() < 0.25 for _ in range(NR)]
+        jobs[-1]["freq_desc"] = r2.random() < 0.4
     return jobs
 
 
